@@ -73,6 +73,19 @@ fn option_value(rng: &mut Rng, name: &str) -> String {
     }
 }
 
+/// Values are passed on verbatim: surrounding blanks, quotes, case belong to them.
+fn decorate(rng: &mut Rng, v: String) -> String {
+    match rng.below(24) {
+        0 => format!(" {}", v),
+        1 => format!("{} ", v),
+        2 => format!("\t{}", v),
+        3 => format!("'{}'", v),
+        4 => v.to_uppercase(),
+        5 => format!("{};x:y", v),
+        _ => v,
+    }
+}
+
 pub fn gen_convert(rng: &mut Rng, pool: &Pool, mask: GenMask) -> RunSpec {
     let (mut text, _g) = gen::gen_input(rng, pool, mask);
     if rng.chance(1, 30) {
@@ -90,10 +103,14 @@ pub fn gen_convert(rng: &mut Rng, pool: &Pool, mask: GenMask) -> RunSpec {
     let mut dirs: Vec<String> = vec![];
     let mut files: Vec<(String, Vec<u8>)> = vec![];
     let mut stdin = None;
+    let mut stdin_pipe = false;
+    let mut fifos: Vec<(String, Vec<u8>)> = vec![];
     let input = match rng.weighted(&[45, 25, 30]) {
         0 => {
             let name = rng.pick(FILE_NAMES).to_string();
             match rng.below(40) {
+                // the file argument is a named pipe (process substitution, mkfifo): readable, size unknown
+                3 | 4 => fifos.push((name.clone(), text.clone().into_bytes())),
                 0 => {} // missing input file
                 1 => files.push((name.clone(), invalid_utf8(rng, &text))),
                 2 => dirs.push(name.clone()), // a directory where a file is expected
@@ -103,6 +120,7 @@ pub fn gen_convert(rng: &mut Rng, pool: &Pool, mask: GenMask) -> RunSpec {
         }
         1 => {
             stdin = Some(if rng.chance(1, 30) { invalid_utf8(rng, &text) } else { text.clone().into_bytes() });
+            stdin_pipe = rng.chance(1, 2);
             InputSel::Stdin
         }
         _ => {
@@ -129,6 +147,9 @@ pub fn gen_convert(rng: &mut Rng, pool: &Pool, mask: GenMask) -> RunSpec {
     for n in names {
         if rng.below(100) < density {
             let mut value = option_value(rng, n);
+            if STR_OPTS.contains(&n) {
+                value = decorate(rng, value);
+            }
             let mut eq = rng.chance(1, 3);
             if value.starts_with('-') {
                 eq = true; // `--opt -x` is a usage error for clap; `--opt=-x` is well-formed
@@ -213,6 +234,8 @@ pub fn gen_convert(rng: &mut Rng, pool: &Pool, mask: GenMask) -> RunSpec {
         dirs,
         files,
         stdin,
+        stdin_pipe,
+        fifos,
         faults: vec![],
         rand_seed: rng.next_u64() | 1,
     }
@@ -304,7 +327,7 @@ pub fn gen_build(rng: &mut Rng, pool: &Pool, mask: GenMask) -> RunSpec {
             files.push((format!("{}{}.svg", od, rng.pick(STEMS)), stale));
         }
     }
-    RunSpec { mode: Mode::Build(Build { pattern, outdir }), dirs, files, stdin: None, faults: vec![], rand_seed: rng.next_u64() | 1 }
+    RunSpec { mode: Mode::Build(Build { pattern, outdir }), dirs, files, stdin: None, stdin_pipe: false, fifos: vec![], faults: vec![], rand_seed: rng.next_u64() | 1 }
 }
 
 pub fn gen_workload(rng: &mut Rng, pool: &Pool) -> RunSpec {
